@@ -554,6 +554,26 @@ func runC11(r *ev.Recorder) {
 		}
 	}
 
+	// literals rendered stand-alone (GoString) straight after fragment renders that gofmt rejected or
+	// that panicked: exactly the text of the literal alone
+	for round := 0; round < 3; round++ {
+		for _, v := range []any{5, int8(-3), true, 1.5, uint64(7), complex64(1i), float32(2)} {
+			jh.Catch(func() (string, error) { return jen.Lit(1).Op("+").GoString(), nil })
+			jh.Catch(func() (string, error) { return jen.Id("x").Op("+").Lit(struct{ A int }{1}).GoString(), nil })
+			got := jh.Catch(func() (string, error) { return jen.Lit(v).GoString(), nil })
+			gotFn := jh.Catch(func() (string, error) {
+				return jen.Parens(jen.LitFunc(func() interface{} { return v })).GoString(), nil
+			})
+			want := jh.Raw(jen.Lit(v)).Out
+			r.Eval(2)
+			r.Distinct(fmt.Sprintf("after-failed-fragment-%d-%T", round, v))
+			if !got.OK() || !c11SameExpr(got.Out, want) || !gotFn.OK() || !c11SameExpr(gotFn.Out, want) {
+				r.Violate(ev.Violation{Signature: "c11:literal-after-failed-fragment-renders", What: fmt.Sprintf("Lit(%T %v).GoString() after failing fragment renders gives %q, Parens(LitFunc) %q, want %q", v, v, got, gotFn, want),
+					Case: ev.JSON(c11Case{Type: "litfunc-stateful"}), Detail: "state left behind by a failed render"})
+			}
+		}
+	}
+
 	// literals appended to statements built by Add(parts...) from ONE slice with spare capacity
 	{
 		vals := []any{int8(-128), uint8(255), 1.5, true, 7, complex64(1 + 2i), int64(9), "s"}
